@@ -110,10 +110,12 @@ func (u *User) iteratePaths(cleanPath, permissionType string) (bool, error) {
 		var regexStr string
 		var negate bool
 
-		splitted := strings.Split(permission, ":")
-		if len(splitted) > 1 {
+		// Only a leading word (e.g. "readfiles:") is a permission type. The
+		// regex itself may contain colons (e.g. "[[:digit:]]").
+		if splitted := strings.SplitN(permission, ":", 2); len(splitted) > 1 &&
+			isPermissionType(splitted[0]) {
 			typeStr = splitted[0]
-			permission = strings.Join(splitted[1:], ":")
+			permission = splitted[1]
 		}
 
 		dlog.Server.Debug(u, cleanPath, typeStr, permission)
@@ -145,4 +147,16 @@ func (u *User) iteratePaths(cleanPath, permissionType string) (bool, error) {
 	}
 
 	return hasPermission, nil
+}
+
+func isPermissionType(str string) bool {
+	if str == "" {
+		return false
+	}
+	for _, r := range str {
+		if (r < 'a' || r > 'z') && (r < 'A' || r > 'Z') {
+			return false
+		}
+	}
+	return true
 }
